@@ -132,3 +132,40 @@ for _nm in ("augment", "diminish"):
        emits="[(%r, c) for c in container_entries(self.bar)]" % _nm,
        callee_events={NC + _nm: {"name": _nm, "with_receiver": True}},
        split=_LIFT_SPLIT, split_is_domain=True, modifies=["param:self"], properties=["C11"], battery="bar_lift")
+
+# adding notes to the sounding entry at a beat / assigning new content to an index: only that entry's content changes
+_c("place_notes_at",
+   params={"self": "LiftBar", "notes": "NoteContainer", "at": "real"},
+   requires=[("sounding-entries-only", "all([e[2] is not None for e in self.bar])"),
+             ("containers-pitch-ordered-with-valid-names",
+              "all([all([is_name(n.name) for n in e[2].notes]) and "
+              "all([pitch(e[2].notes[i]) < pitch(e[2].notes[i + 1]) for i in range(len(e[2].notes) - 1)]) for e in self.bar]) "
+              "and all([is_name(n.name) for n in notes.notes])")],
+   returns="None",
+   old={"old_entries": "[(e[0], e[1], e[2]) for e in self.bar]"}, old_by_reference=["old_entries"],
+   emits="[('add', e[2], notes) for e in self.bar if e[0] == at]",
+   ensures=[("every-entry-keeps-its-beat-value-and-container-object",
+             "all([self.bar[i][0] == old_entries[i][0] and self.bar[i][1] == old_entries[i][1] and "
+             "same_object(self.bar[i][2], old_entries[i][2]) for i in range(len(self.bar))])")],
+   callee_events={NC + "__add__": {"name": "add", "with_receiver": True, "assume": ["returns-self"]}},
+   split=[{"field_types": {"self.bar": "[" + ",".join(["[real,real,NoteContainer]"] * k) + "]"}} for k in range(0, 4)],
+   split_is_domain=True, modifies=["param:self"], properties=["C13"], battery="bar_at",
+   notes="domain: bars of 0..3 sounding entries at arbitrary beats (also equal beats): the notes are added to exactly the "
+         "entries that start at the given beat; the adding itself is NoteContainer.add_notes (proved separately)")
+_c("__setitem__",
+   params={"self": "LiftBar", "index": "int", "value": "NoteContainer"},
+   returns="None",
+   old={"old_entries": "[(e[0], e[1], e[2]) for e in self.bar]"}, old_by_reference=["old_entries"],
+   ensures=[("that-entrys-content-is-the-given-container", "same_object(self.bar[index][2], value)"),
+            ("its-beat-and-value-stay", "self.bar[index][0] == old_entries[index][0] and self.bar[index][1] == old_entries[index][1]"),
+            ("every-other-entry-untouched",
+             "all([i == (index if index >= 0 else index + len(self.bar)) or (self.bar[i][0] == old_entries[i][0] and "
+             "self.bar[i][1] == old_entries[i][1] and same_object(self.bar[i][2], old_entries[i][2])) "
+             "for i in range(len(self.bar))])")],
+   raises={"IndexError": "index >= len(self.bar) or index < -len(self.bar)"},
+   split=[{"field_types": {"self.bar": "[" + ",".join(["[real,real,NoteContainer]"] * k) + "]"}, "bind": {"index": i}}
+          for k in range(0, 4) for i in range(-k, k)] +
+         [{"field_types": {"self.bar": "[" + ",".join(["[real,real,NoteContainer]"] * k) + "]"},
+           "assume": "index >= %d or index < %d" % (k, -k)} for k in range(0, 4)],
+   split_is_domain=True, modifies=["param:self"], properties=["C13"], battery="bar_setitem",
+   notes="domain: bars of 0..3 entries, any index (negative ones count from the end, out of range raises IndexError)")
